@@ -447,11 +447,47 @@ inductive Forced (E : Env) : Ty → Val → Nat → Prop
   /-- a union: whichever alternative reads the value (any branch) -/
   | union (ts : List Ty) (v : Val) (n : Nat) : isNoneVal v = false → (∀ t ∈ ts, Forced E t v n) → Forced E (.union ts) v n
 
-/-! ### weight of a declared type: how many leaf conversions one value node can cost -/
-
 /-- does stage 2 / stage 3 of a union run in a context with preferences `m` (rule.py:383, 399) -/
 def stage2 (m : Mode) : Bool := !m.noLoss || !m.noCast
 def stage3 (m : Mode) : Bool := !m.noLoss && !m.noCast
+
+/-! ### declarations whose unions cannot be read in two ways -/
+
+def isScalarTy : Ty → Bool
+  | .leaf => true
+  | .none => true
+  | _ => false
+
+def isScalarVal : Val → Bool
+  | .tok _ => true
+  | .none => true
+  | _ => false
+
+mutual
+/-- every union has at most one alternative that can read a container (`Optional[T]`, `Union[Node, int, None]`, …):
+the depth limit can then not change *which* alternative reads a value -/
+def unamb : Ty → Bool
+  | .leaf => true
+  | .none => true
+  | .data _ => true
+  | .list t => unamb t
+  | .tuple t => unamb t
+  | .dict _ t => unamb t
+  | .union ts => unambL ts && decide ((ts.filter fun t => !isScalarTy t).length ≤ 1)
+def unambL : List Ty → Bool
+  | [] => true
+  | t :: ts => unamb t && unambL ts
+end
+
+def envUnamb (E : Env) : Bool := E.all fun cd => cd.fields.all fun ft => unamb ft.2
+
+/-- the attempts of a union in a context with preferences `m`, in the order the stages make them -/
+def attempts (m : Mode) (ts : List Ty) : List (Mode × Ty) :=
+  (if stage2 m then ts.map fun t => (Mode.strict, t) else []) ++
+  ((if stage3 m then ts.map fun t => ((⟨true, m.noCast⟩ : Mode), t) else []) ++
+   ts.map fun t => (m, t))
+
+/-! ### weight of a declared type: how many leaf conversions one value node can cost -/
 
 mutual
 /-- leaf conversions per value node under type `T` in a context with preferences `m`, as long as nothing below
